@@ -1980,6 +1980,9 @@ def clean_astext(node: nodes.Element) -> str:
         img["alt"] = ""
     for raw in list(findall(node)(nodes.raw)):
         raw.parent.remove(raw)
+    # warnings appended to the node are not part of its text
+    for message in list(findall(node)(nodes.system_message)):
+        message.parent.remove(message)
     return node.astext()
 
 
